@@ -253,6 +253,23 @@ def run(ctx):
                 ctx.violation("C16:fault:truncated:%s" % impl.split(" ")[0], "workbook truncated at %d -> %s" % (cut, impl), {"cut": cut})
         eocd = blob[blob.rfind(b"PK\x05\x06"):]
         cd_at = blob.rfind(b"PK\x01\x02")
+        # malformed workbooks through the validating reader: a data-format error in every mode
+        cid_f = interface.Cid()
+        cid_f.read("c16f", [["D", "Format", "Excel"], ["F", "a"], ["F", "b", "", "X"]])
+        for cut in (0, 100, len(blob) // 2, len(blob) - 1):
+            path = os.path.join(tmp, "bad2.xlsx")
+            with open(path, "wb") as f:
+                f.write(blob[:cut])
+            for mode in ("raise", "yield", "continue"):
+                try:
+                    items = list(validio.rows(cid_f, path, on_error=mode))
+                    got_m = "ok:%d items%s" % (len(items), ", an error among them" if any(isinstance(i_, Exception) for i_ in items) else "")
+                except Exception as error:  # noqa
+                    got_m = core.classify_exception(error)
+                ctx.count(key=("fault-mode", cut, mode), branch="fault-mode:" + got_m.split(":")[0])
+                if got_m != "data:Format":
+                    ctx.violation("C16:fault-through-reader:%s:%s" % (mode, got_m.split(" ")[0].split(":")[0]), "workbook truncated at %d read with on_error=%s: %s" % (cut, mode, got_m),
+                                  {"cut": cut, "mode": mode, "got": got_m})
         for name, data in (("csv-as-xlsx", b"a,b\n1,2\n"), ("empty", b""), ("text-with-zip-tail", b"a,b\n1,2\n" + eocd),
                            ("central-directory-overwritten", blob[:cd_at] + b"\x00" * 46 + blob[cd_at + 46:]),
                            ("middle-missing", blob[:len(blob) // 3] + blob[len(blob) // 2:])):
